@@ -6,7 +6,7 @@ From Coq Require Import NArith ZArith List Bool.
 From Verif Require Import Num ReactionText Units UnitText Schemas Dict.
 Import ListNotations.
 
-Inductive jv := JStr (s : str) | JBool (b : bool) | JNull | JObj (d : list (str * jv)) | JArr (l : list jv) | JInt (z : Z).
+Inductive jv := JStr (s : str) | JBool (b : bool) | JNull | JObj (d : list (str * jv)) | JArr (l : list jv) | JInt (z : Z) | JNum (t : str).
 
 (* ---- units system ---- *)
 Definition write_usys (wr : schema -> list (option jv) -> list (str * jv)) (u : usys) : jv :=
@@ -342,6 +342,73 @@ Section WithFloat.
         end
     | _ => Err
     end.
+  (* ---- system: rdsystem_to_dict / rdsystem_from_dict (network and space given in line, state and chemostat map given) ---- *)
+  Inductive space_obj := SpGrid (g : grid_obj) | SpGraph (g : graph_obj).
+  Record system_obj := { sy_net : network_obj; sy_space : space_obj; sy_state : list F * (usys * dim); sy_chs : list Z; sy_units : usys }.
+
+  Definition k_type : str := [116; 121; 112; 101]%N.
+  Definition dimAmount : dim := {| dS := 0; dT := 0; dQ := 1 |}.
+
+  Definition write_space (sp : space_obj) : jv := match sp with SpGrid g => write_grid g | SpGraph g => write_graph g end.
+  (* unitarray_to_dict *)
+  Definition write_unitarray (a : list F * (usys * dim)) : jv :=
+    JObj (wr schema_unitarray [Some (JArr (map (fun x => JNum (print_float x)) (fst a))); Some (JStr (print_units (fst (snd a)) (snd (snd a))))]).
+  Definition write_system (s : system_obj) : jv :=
+    JObj (wr schema_system [Some (write_network (sy_net s)); Some (write_space (sy_space s)); Some (write_unitarray (sy_state s));
+                           Some (JArr (map JInt (sy_chs s))); Some (write_usys wr (sy_units s))]).
+
+  (* rdspace_from_dict: the raw dictionary's "type" decides (absent: a grid) *)
+  Definition read_space (parent : usys) (v : jv) : res space_obj :=
+    match v with
+    | JObj dct =>
+        match find (fun kv : str * jv => str_eqb (fst kv) k_type) dct with
+        | None => match read_grid parent v with Ok g => Ok (SpGrid g) | Err => Err end
+        | Some (_, JStr t) =>
+            if str_eqb t k_grid then match read_grid parent v with Ok g => Ok (SpGrid g) | Err => Err end
+            else if str_eqb t k_graph then match read_graph parent v with Ok g => Ok (SpGraph g) | Err => Err end
+            else Err
+        | Some _ => Err
+        end
+    | _ => Err
+    end.
+
+  (* unitarray_from_dict, then the state setter: an amount *)
+  Definition read_unitarray (d : dim) (v : jv) : res (list F * (usys * dim)) :=
+    match v with
+    | JObj dct =>
+        match read_fields jv schema_unitarray dct with
+        | Ok [Some (JArr xs); Some (JStr t)] =>
+            match read_list (fun x => match x with JNum n => match parse_float n with Some f => Ok f | None => Err end | _ => Err end) xs, parse_units t with
+            | Ok vals, Some (u, d') => if dim_eqb d' d then Ok (vals, (u, d')) else Err
+            | _, _ => Err
+            end
+        | _ => Err
+        end
+    | _ => Err
+    end.
+
+  Definition space_envs (sp : space_obj) : list Z := match sp with SpGrid g => go_env g | SpGraph g => map nd_env (gr_nodes g) end.
+
+  Definition read_system (parent : usys) (v : jv) : res system_obj :=
+    match v with
+    | JObj dct =>
+        match read_fields jv schema_system dct with
+        | Ok [Some fnet; Some fsp; Some fstate; Some (JArr fchs); funits] =>
+            match read_units_field parent funits with
+            | Ok u =>
+                match read_network u fnet, read_space u fsp, read_unitarray dimAmount fstate,
+                      read_list (fun x => match x with JInt z => Ok z | JBool b => Ok (if b then 1%Z else 0%Z) | _ => Err end) fchs with
+                | Ok net, Ok sp, Ok st, Ok chs =>
+                    if forallb (fun e => (0 <=? e)%Z && (e <? Z.of_nat (length (no_envs net)))%Z) (space_envs sp)
+                    then Ok {| sy_net := net; sy_space := sp; sy_state := st; sy_chs := chs; sy_units := u |} else Err
+                | _, _, _, _ => Err
+                end
+            | Err => Err
+            end
+        | _ => Err
+        end
+    | _ => Err
+    end.
 End WithFloat.
 
 (* ---- executable comparison of JSON values, for the correspondence ---- *)
@@ -352,6 +419,7 @@ Fixpoint jv_eqb (a b : jv) : bool :=
   | JBool x, JBool y => Bool.eqb x y
   | JNull, JNull => true
   | JInt x, JInt y => Z.eqb x y
+  | JNum x, JNum y => str_eqb x y
   | JArr l, JArr m =>
       (fix go (l m : list jv) : bool :=
          match l, m with
